@@ -149,3 +149,65 @@ func SyncMapRange(m *sync.Map, f func(key, value any) bool) {
 		}
 	}
 }
+
+// ---- sync.Pool -------------------------------------------------------------------------
+// sync.Pool hands objects back depending on GC and P-local caches. Under simulation a pool is
+// a LIFO stack per run: reuse happens (a pooled object that was not reset properly is met
+// again inside the run), deterministically, and nothing survives into the next run.
+
+type poolState struct {
+	epoch uint64
+	items []any
+}
+
+var (
+	poolMu    sync.Mutex
+	pools     = map[*sync.Pool]*poolState{}
+	poolEpoch uint64
+)
+
+// ResetPools empties every pool (start of a run).
+func ResetPools() {
+	poolMu.Lock()
+	poolEpoch++
+	for k := range pools {
+		delete(pools, k)
+	}
+	poolMu.Unlock()
+}
+
+func poolOf(p *sync.Pool) *poolState {
+	st := pools[p]
+	if st == nil || st.epoch != poolEpoch {
+		st = &poolState{epoch: poolEpoch}
+		pools[p] = st
+	}
+	return st
+}
+
+func PoolGet(p *sync.Pool) any {
+	poolMu.Lock()
+	st := poolOf(p)
+	if n := len(st.items); n > 0 {
+		x := st.items[n-1]
+		st.items = st.items[:n-1]
+		poolMu.Unlock()
+		ProbeHit("pool-reuse")
+		return x
+	}
+	poolMu.Unlock()
+	if p.New != nil {
+		return p.New()
+	}
+	return nil
+}
+
+func PoolPut(p *sync.Pool, x any) {
+	if x == nil {
+		return
+	}
+	poolMu.Lock()
+	st := poolOf(p)
+	st.items = append(st.items, x)
+	poolMu.Unlock()
+}
